@@ -52,3 +52,50 @@ Proof.
 Qed.
 
 End FalseLoop.
+
+(* non-vacuity: block 0 computes x1 := x0 + 1, block 1 computes x2 := x1 * 2; the group is run in the WRONG order [1;0]
+   (as a cyclic-capable scheduler may do inside an SCC) and iterated; the acyclic reference order is [0;1] *)
+Definition flB (i : nat) : blk nat nat :=
+  match i with
+  | 0 => mkBlk (fun v => v =? 0) (fun v => v =? 1) (fun e v => if v =? 1 then e 0 + 1 else e v)
+  | 1 => mkBlk (fun v => v =? 1) (fun v => v =? 2) (fun e v => if v =? 2 then e 1 * 2 else e v)
+  | _ => mkBlk (fun _ => false) (fun _ => false) (fun e => e)
+  end.
+Definition flE (i j : nat) : bool := (i =? 0) && (j =? 1).
+Definition flStable (e e' : env nat nat) : bool := e 1 =? e' 1.
+
+Lemma fl_in i : In i [1; 0] -> i = 0 \/ i = 1.
+Proof. cbn. intros [H|[H|[]]]; auto. Qed.
+
+Lemma false_loop_nonvacuous :
+  (forall e e', flStable e e' = true -> forall v, (v =? 1) = true -> e v = e' v) /\
+  NoDup [1; 0] /\
+  (forall i, In i [1; 0] -> frame (flB i)) /\ (forall i, In i [1; 0] -> sdep (flB i)) /\
+  (forall i, In i [1; 0] -> nsl (flB i)) /\ single_writer flB [1; 0] /\
+  (forall i j v, In i [1; 0] -> In j [1; 0] -> i <> j -> wr (flB i) v = true -> rd (flB j) v = true -> (v =? 1) = true) /\
+  (forall i j, In i [1; 0] -> In j [1; 0] -> i <> j -> feeds flB i j -> flE i j = true) /\
+  Permutation [1; 0] [0; 1] /\ lin_ext flE [0; 1] /\
+  exists r, scc_iter flB [1; 0] flStable 3 (fun _ => 0) = Some r /\ r 1 = 1 /\ r 2 = 2 /\
+            run_list flB [0; 1] (fun _ => 0) 1 = 1 /\ run_list flB [0; 1] (fun _ => 0) 2 = 2 /\
+            scc_iter flB [1; 0] flStable 1 (fun _ => 0) = None.
+Proof.
+  split; [|split; [|split; [|split; [|split; [|split; [|split; [|split; [|split; [|split]]]]]]]]].
+  - intros e e' H v Hv. apply Nat.eqb_eq in Hv. subst v. apply Nat.eqb_eq. exact H.
+  - repeat constructor; cbn; intuition congruence.
+  - intros i Hi e v. destruct (fl_in i Hi) as [-> | ->]; cbn; intros W; rewrite W; reflexivity.
+  - intros i Hi e1 e2 H v. destruct (fl_in i Hi) as [-> | ->]; cbn; intros W; rewrite W.
+    + rewrite (H 0 eq_refl). reflexivity.
+    + rewrite (H 1 eq_refl). reflexivity.
+  - intros i Hi v. destruct (fl_in i Hi) as [-> | ->]; cbn; intros R; apply Nat.eqb_eq in R; subst v; reflexivity.
+  - intros i j v Hi Hj Hne. destruct (fl_in i Hi) as [-> | ->], (fl_in j Hj) as [-> | ->]; cbn; try congruence;
+      intros W; apply Nat.eqb_eq in W; subst v; reflexivity.
+  - intros i j v Hi Hj Hne. destruct (fl_in i Hi) as [-> | ->], (fl_in j Hj) as [-> | ->]; cbn; try congruence;
+      intros W R; apply Nat.eqb_eq in W; subst v; try reflexivity; discriminate.
+  - intros i j Hi Hj Hne [v [W R]]. destruct (fl_in i Hi) as [-> | ->], (fl_in j Hj) as [-> | ->]; cbn in *; try congruence.
+    apply Nat.eqb_eq in W. subst v. discriminate.
+  - apply perm_swap.
+  - cbn. split; [|split; [|exact I]].
+    + intros x [<-|[]]. reflexivity.
+    + intros x [].
+  - eexists. split; [vm_compute; reflexivity|]. vm_compute. repeat split.
+Qed.
